@@ -38,6 +38,10 @@ CHECKS = {
    text="Has, First and Locate are modelled in Coq as separately defined evaluators (depth-first search with early exit; selection that carries normalized paths) over the fragment denotation of C05. Proved for all paths and data: Has is true exactly when Get is non-empty, First is the head of Get's result list (hence a member), and the values Locate points at are exactly Get's results in order. The real Has, FirstFound, Locate (every reported path re-evaluated with Get), Expr.Walk, GetNodes/FirstNode/Get on gen data, Get/Has on Keyed+Indexed wrappers and typed slices are compared with the extracted first_spec/has_spec/locate_spec/get_spec on seeded paths x trees. One genuine disagreement (slice normalisation of Locate/Walk, pinned by tests) is a recorded known finding, decided by an extracted specification variant.",
    technique="Coq proofs relating separately modelled evaluators to the Get denotation + correspondence of eight real evaluators and four data representations",
    design='6/C11'),
+ 'C17': dict(
+   text="match_spec (Coq) specifies the streaming Match: one callback per outermost location some target selects (Locate denotation of C11), in document order, with the value at that location. Proved: every reported location is selected, none lies below another selected location, and each (path, value) is a location of the document. oj.Match, oj.MatchString, oj.MatchLoad (one piece, 1-byte reads, a random split) and sen.Match are compared, callback sequence by callback sequence, with the extracted match_spec on seeded documents x 1-2 seeded targets (child, index, wildcard, union, descent, trailing filter). Three genuine limitations of the streaming handler are recorded known findings (slice/negative-index targets; a filter target shadowing another target; a descent in front of a trailing filter), each attributed per case.",
+   technique="Coq specification of outermost-match with proved laws + callback-sequence correspondence under all chunkings",
+   design='6/C17'),
  'C19': dict(
    text="diff, jeq and jmatch (Alt/Diff.v) specify alt.Diff, Compare and Match on JSON-like trees (numbers by value across int/float, null equal to an absent member, ignore paths with wildcards applied per key and per index, a shorter second array reported once). Proved for all pairs of trees: Diff without ignore paths is empty exactly when the trees are equal in that sense, and Compare is nil exactly when Diff is empty. alt.Diff (simple and gen data, compared as sets of paths), alt.Compare and alt.Match are compared with the extracted functions on directed pairs (ignore paths at different indexes, wildcards) and seeded trees with 0-3 perturbations and 0-2 ignore paths.",
    technique="Coq proof that the Diff specification is empty iff trees are equal + correspondence of Diff/Compare/Match against the extracted specification",
